@@ -1,15 +1,12 @@
 import IrVerif.Props.C02
 open IrVerif.Serde
-#print axioms C02_dim
 #print axioms C02_shape
 #print axioms C02_maps
 #print axioms C02_type
 #print axioms C02_value_info
-#print axioms C02_tensor_proto_backed
 #print axioms C02_tensor_string
 #print axioms C02_tensor_external
 #print axioms C02_devcfg
-#print axioms C02_attr_scalar
 #print axioms C02_attr_list
 #print axioms C02_attr_tensor
 #print axioms C02_attr_type
@@ -23,3 +20,8 @@ open IrVerif.Serde
 #print axioms C02_norm_idempotent
 #print axioms C02_annotations
 #print axioms C02_no_loss_names
+#print axioms C02_keeps_model
+#print axioms C02_keeps_nodes
+#print axioms C02_keeps_values
+#print axioms C02_node_alone
+#print axioms C02_function_alone
